@@ -139,7 +139,16 @@ func summarize(o *checkOpts, eng *Engine, reports []*fnReport, obls []*Obligatio
 				r.Violations = append(r.Violations, ob)
 			}
 		case "vacuous":
-			r.Vacuous = append(r.Vacuous, ob)
+			if ob.Kind == "cover@return" && ob.Answer == "unsat" {
+				// a return statement that can no longer be reached under the contract: on the unchanged
+				// tree every such cover is satisfiable, so this is an obligation that passed and now
+				// fails (an error path or an arm of the code has gone dead). Reported as a violation;
+				// an unsatisfiable precondition (pre-sat) stays an engine error.
+				ob.Clause = "this return statement is reachable under the contract (it was on the unchanged tree): " + ob.Clause
+				r.Violations = append(r.Violations, ob)
+			} else {
+				r.Vacuous = append(r.Vacuous, ob)
+			}
 		case "error":
 			r.Errors = append(r.Errors, ob)
 		}
